@@ -82,6 +82,9 @@ inductive Op where
   | gate (ok : Bool)     -- let the exporter call in progress return nil / an error
   | ff (fid : Nat)       -- ForceFlush(ctx) in its own goroutine
   | sd                   -- Shutdown(ctx) in its own goroutine; any number of them (the first wins `stopOnce`)
+  | sdT                  -- Shutdown(ctx) with a context that has already ended: if it wins `stopOnce` it stores `stopped`,
+                         -- starts the shutdown goroutine and returns ctx.Err() from its select at once; otherwise it
+                         -- waits in `Once.Do` like any other call (no context there) and returns nil
   | parkEnd (id : Nat)   -- OnEnd that is parked right after its `stopped` check
   | releaseEnd (id : Nat)
   | parkFF (fid : Nat)   -- ForceFlush parked right after its `stopped` check
@@ -114,6 +117,16 @@ def applyOp (ps : Parked × St) : Op → Parked × St
     | none => ps
   | .ff fid => (ps.1, (step ps.2 (.ffCall fid)).getD ps.2)
   | .sd => (ps.1, (callShutdown ps.2).getD ps.2)
+  | .sdT =>
+    if ps.2.sd = .none then
+      match step ps.2 .sdCall with
+      | some s1 => match step s1 .sdStore with
+        | some s2 => match step s2 .sdTimeout with
+          | some s3 => (ps.1, s3)
+          | none => (ps.1, s2)
+        | none => (ps.1, s1)
+      | none => ps
+    else (ps.1, (callShutdown ps.2).getD ps.2)
   | .parkEnd id => match step ps.2 (.accept id) with
     | some s' => ({ ps.1 with spans := id :: ps.1.spans }, s')
     | none => ps                     -- already stopped: returns before the hook, nothing is parked
@@ -164,6 +177,24 @@ theorem applyOp_reachable {cap maxB : Nat} {blocking : Bool} (ps : Parked × St)
     | some s' =>
       obtain ⟨l, hl⟩ := callShutdown_step _ _ hs
       simpa [hs] using Reachable.step l h hl
+  case sdT =>
+    split
+    · split
+      · rename_i s1 hs1
+        have h1 := Reachable.step _ h hs1
+        split
+        · rename_i s2 hs2
+          have h2 := Reachable.step _ h1 hs2
+          split
+          · rename_i s3 hs3; exact Reachable.step _ h2 hs3
+          · exact h2
+        · exact h1
+      · exact h
+    · cases hs : callShutdown ps.2 with
+      | none => simpa [hs] using h
+      | some s' =>
+        obtain ⟨l, hl⟩ := callShutdown_step _ _ hs
+        simpa [hs] using Reachable.step l h hl
   case parkEnd id =>
     split
     · rename_i s' hs'; exact Reachable.step _ h hs'
